@@ -449,6 +449,7 @@ func (c *Ctx) c12Select(f *ssa.Function) {
 		// classify states
 		timeoutIdx, doneIdx := -1, -1
 		var resultChan *ssa.MakeChan
+		var waitedCtx ssa.Value // the context whose Done channel the timeout case waits on, nil for a plain timer
 		for i, st := range sel.States {
 			if st.Dir != types.RecvOnly {
 				continue
@@ -458,6 +459,9 @@ func (c *Ctx) c12Select(f *ssa.Function) {
 				n := calleeFull(&call.Call)
 				if n == "time.After" || (call.Call.IsInvoke() && call.Call.Method.Name() == "Done") {
 					timeoutIdx = i
+					if n != "time.After" {
+						waitedCtx = call.Call.Value
+					}
 					continue
 				}
 			}
@@ -516,11 +520,23 @@ func (c *Ctx) c12Select(f *ssa.Function) {
 			okKind := false
 			for _, l := range sources(r.Results[k], deriveOpts{}) {
 				if u, ok := l.(*ssa.UnOp); ok {
-					if g, ok := u.X.(*ssa.Global); ok && g.Name() == "ErrTimeout" {
+					// a constant kind is right for a timer; a context ends by cancellation as well as by its deadline and
+					// only the context can say which
+					if g, ok := u.X.(*ssa.Global); ok && g.Name() == "ErrTimeout" && waitedCtx == nil {
 						okKind = true
 					}
 				}
 				if cl, ok := l.(*ssa.Call); ok && strings.HasSuffix(calleeFull(&cl.Call), "DetermineContextError") {
+					if waitedCtx == nil {
+						okKind = true
+					}
+					for _, a := range cl.Call.Args {
+						if waitedCtx != nil && sameValue(a, waitedCtx) {
+							okKind = true
+						}
+					}
+				}
+				if cl, ok := l.(*ssa.Call); ok && cl.Call.IsInvoke() && cl.Call.Method.Name() == "Err" && waitedCtx != nil && sameValue(cl.Call.Value, waitedCtx) {
 					okKind = true
 				}
 			}
@@ -528,7 +544,7 @@ func (c *Ctx) c12Select(f *ssa.Function) {
 				bad = c.ipos(r)
 			}
 		})
-		c.check(seenRet && bad == "", "T2", key+":kind", c.ipos(tb.Instrs[0]), "timeout case yields ErrTimeout / the timeout context's error", "return at "+bad+" after a timeout does not yield the timeout kind")
+		c.check(seenRet && bad == "", "T2", key+":kind", c.ipos(tb.Instrs[0]), "timeout case yields ErrTimeout (timer) / the error of the context it waited on", "return at "+bad+" after a timeout does not yield the kind of what ended the wait (for a context: its own error, 'timeout' or 'cancelled'; a constant mislabels one of the two)")
 		// completion case: the result returned can be the received value
 		cb := selectCase(sel, doneIdx)
 		if cb != nil {
